@@ -18,6 +18,8 @@ def run(ctx: Ctx):
         c = trk.random_case(ctx.seed * 100000 + 50000 + k, vertical=(k % 5 != 0), diffusion=(k % 4 == 0), nsteps=4, fast=False)
         if k % 6 == 1:
             c["grid"]["hc"] = 10.0     # critical depth above the depth of the shallowest cells (8 m)
+        if k % 4 == 2:
+            c["rev"] = True            # backward in time (the vertical advection is reversed by the tracker)
         cases.append(c)
     got = pmap(trk.run_tracker, cases)
     want = driver([trk.model_request(c) for c in cases])
@@ -25,7 +27,7 @@ def run(ctx: Ctx):
         vert = ("Dz" in c) or c.get("vertadv", False)
         ctx.case("vertical", [c["seed"], c["scheme"], c["dt"], c.get("Dz", 0), c.get("vertadv", False)],
                  sample=trk.small(c) | dict(particles=c["particles"][:2], draws="…", w="…"), nontrivial=vert)
-        ctx.count("vertdiff:" + str("Dz" in c)); ctx.count("vertadv:" + str(c.get("vertadv", False)))
+        ctx.count("vertdiff:" + str("Dz" in c)); ctx.count("vertadv:" + str(c.get("vertadv", False))); ctx.count("reversed:" + str(bool(c.get("rev"))))
         # the property on the implementation's output
         i0, i1, j0, j1 = g["limits"]
         H = np.array(c["grid"]["h"])[j0:j1, i0:i1]      # the bathymetry of the file, not what the grid object holds now
@@ -43,7 +45,7 @@ def run(ctx: Ctx):
                 if "Dz" in c:
                     disp += (2 * c["Dz"] / c["dt"]) ** 0.5 * draws[off + k] * c["dt"]
                 if c.get("vertadv"):
-                    disp += c["w"][n_][k] * c["dt"]
+                    disp += (-1 if c.get("rev") else 1) * c["w"][n_][k] * c["dt"]
                 z = s["Z"][k]
                 if not vert:
                     if z != prev["Z"][k]:
